@@ -13,6 +13,9 @@ Sites (recognised by class + method name and by the shape of their statements):
   _grid.py    TraveltimeGrid2D/3D.raytrace (stepsize default, max_step default, ray2d/ray3d call), .gradient
   _solver.py  Eikonal2D/3D.solve (kernel call, result objects)
   _fteik/...  parameter names of solve2d/solve3d/ray2d/ray3d (to bind the call arguments)
+  round 3:    file closure (the package consists of exactly the known files), package surface (__init__.py of the
+              package and of _fteik/_interp: import tables and __all__; __about__.py; _helpers.py), module and class
+              level of _base.py/_grid.py/_solver.py (imports, the known classes, methods only)
   round 2:    BaseGrid2D/3D.__call__ and TraveltimeGrid2D/3D.__call__ (interp*/vinterp* wiring, parameter names from
               _interp/*.py), TraveltimeGrid2D/3D.gradient (None guard, component order), the constructors
               (TraveltimeGrid*, Eikonal* with the origin default, Grid*, BaseTraveltime), remaining BaseGrid members
@@ -1200,8 +1203,192 @@ class Gen:
         self.dat(f"eikonal_{tag}_init_stored", "list (string * string)",
                  pair_list([(k, U(subst(v, got))) for k, v in self.base_store]))
 
+    # ---------------------------------------------------------------- round 3: package surface and file closure
+    KNOWN_FILES = ["__about__.py", "__init__.py", "_base.py", "_common.py", "_grid.py", "_helpers.py", "_io.py", "_solver.py",
+                   "_fteik/__init__.py", "_fteik/_common.py", "_fteik/_fteik2d.py", "_fteik/_fteik3d.py",
+                   "_fteik/_ray2d.py", "_fteik/_ray3d.py",
+                   "_interp/__init__.py", "_interp/_interp2d.py", "_interp/_interp3d.py", "_interp/_vinterp2d.py",
+                   "_interp/_vinterp3d.py"]
+    LOADABLE = (".py", ".pyc", ".pyo", ".pyw", ".so", ".pyd", ".dll", ".dylib", ".pth")
+
+    def file_closure(self):
+        found = []
+        for root, dirs, files in os.walk(self.pkg):
+            dirs[:] = sorted(d for d in dirs if d != "__pycache__")
+            for f in files:
+                if f.endswith(self.LOADABLE):
+                    found.append(os.path.relpath(os.path.join(root, f), self.pkg).replace(os.sep, "/"))
+        for f in sorted(found):
+            if f not in self.KNOWN_FILES:
+                raise Reject(f, 0, "file is not part of the known package (no translator would read it)")
+        for f in self.KNOWN_FILES:
+            if f not in found:
+                raise Reject(f, 0, "file of the known package is missing")
+        self.dat("pkg_files", "list string", str_list(sorted(found)))
+
+    @staticmethod
+    def rows_list(rows):
+        return "[" + ";\n   ".join(f"({coq_str(a)}, {str_list(b)})" for a, b in rows) + "]"
+
+    def import_row(self, s, n, relative_only):
+        if isinstance(n, ast.Import):
+            if relative_only:
+                s.err(n, f"only `from .module import names` is expected here, found `{U(n)}`")
+            return ("import", [al.name + (f" as {al.asname}" if al.asname else "") for al in n.names])
+        if relative_only and (n.level != 1 or not n.module):
+            s.err(n, f"only `from .module import names` is expected here, found `{U(n)}`")
+        for al in n.names:
+            if al.name == "*":
+                s.err(n, "star import")
+            if relative_only and al.asname is not None:
+                s.err(n, "renaming import")
+        return ("." * n.level + (n.module or ""),
+                [al.name + (f" as {al.asname}" if al.asname else "") for al in n.names])
+
+    def all_list(self, s, n):
+        """`__all__ = [<string literals>]` -> the names, else None"""
+        if isinstance(n, ast.Assign) and len(n.targets) == 1 and is_name(n.targets[0], "__all__"):
+            if not (isinstance(n.value, ast.List) and all(isinstance(x, ast.Constant) and isinstance(x.value, str)
+                                                          for x in n.value.elts)):
+                s.err(n, "__all__ must be a list of string literals")
+            return [x.value for x in n.value.elts]
+        return None
+
+    def init_surface(self, rel, key):
+        """an __init__.py: relative from-imports and one literal __all__, nothing else"""
+        s = Src(self.pkg, rel)
+        rows, al = [], None
+        for i, n in enumerate(s.tree.body):
+            if isinstance(n, ast.ImportFrom) or isinstance(n, ast.Import):
+                rows.append(self.import_row(s, n, True))
+                continue
+            a = self.all_list(s, n)
+            if a is not None:
+                if al is not None:
+                    s.err(n, "__all__ assigned twice")
+                al = a
+                continue
+            if i == 0 and isinstance(n, ast.Expr) and isinstance(n.value, ast.Constant) and isinstance(n.value.value, str):
+                continue
+            s.err(n, f"unexpected module-level statement `{U(n).splitlines()[0]}` ({type(n).__name__})")
+        if al is None:
+            s.err(0, "no __all__")
+        imported = [x for _, names in rows for x in names]
+        if len(set(imported)) != len(imported):
+            s.err(0, "a name is imported twice")
+        for x in al:
+            if x not in imported:
+                s.err(0, f"__all__ exports `{x}`, which is not imported here")
+        if len(set(al)) != len(al):
+            s.err(0, "__all__ lists a name twice")
+        self.dat(f"pkg_{key}_imports", "list (string * list string)", self.rows_list(rows))
+        self.dat(f"pkg_{key}_all", "list string", str_list(al))
+
+    def about_surface(self):
+        s = Src(self.pkg, "__about__.py")
+        rows = []
+        for i, n in enumerate(s.tree.body):
+            if i == 0 and isinstance(n, ast.Expr) and isinstance(n.value, ast.Constant) and isinstance(n.value.value, str):
+                continue
+
+            def simple(v):
+                if isinstance(v, ast.Constant):
+                    return isinstance(v.value, (str, int, float)) or v.value is None
+                return isinstance(v, ast.Tuple) and all(simple(x) for x in v.elts)
+
+            if isinstance(n, ast.Assign) and len(n.targets) == 1 and isinstance(n.targets[0], ast.Name) and simple(n.value):
+                rows.append((n.targets[0].id, U(n.value)))
+                continue
+            s.err(n, f"unexpected module-level statement `{U(n).splitlines()[0]}` (only NAME = <literal> is expected)")
+        if "__version__" not in [a for a, _ in rows]:
+            s.err(0, "no __version__")
+        self.dat("pkg_about", "list (string * string)", pair_list(rows))
+
+    def helpers_surface(self):
+        s = Src(self.pkg, "_helpers.py")
+        rows, imps = [], []
+        for i, n in enumerate(s.tree.body):
+            if isinstance(n, ast.Import):
+                imps.append(self.import_row(s, n, False))
+                continue
+            if i == 0 and isinstance(n, ast.Expr) and isinstance(n.value, ast.Constant) and isinstance(n.value.value, str):
+                continue
+            if isinstance(n, ast.FunctionDef) and not n.decorator_list and n.returns is None:
+                names, dfl = plain_params(s, n)
+                if dfl:
+                    s.err(n, f"{n.name}: default values")
+                b = s.body(n)
+                ok = len(b) == 1 and isinstance(b[0], (ast.Return, ast.Expr)) and isinstance(b[0].value, ast.Call)
+                if ok:
+                    c = b[0].value
+                    ok = (isinstance(c.func, ast.Attribute) and is_name(c.func.value, "numba") and not c.keywords
+                          and all(is_name(a, *names) or (isinstance(a, ast.Constant) and not isinstance(a.value, str))
+                                  for a in c.args))
+                if not ok:
+                    s.err(n, f"{n.name}: the body must be a docstring and one `[return] numba.<function>(<parameters>)`")
+                rows.append((n.name, names, U(b[0])))
+                continue
+            s.err(n, f"unexpected module-level statement `{U(n).splitlines()[0]}` ({type(n).__name__})")
+        if imps != [("import", ["numba"])]:
+            s.err(0, f"expected exactly `import numba`, found {imps}")
+        if len(set(r[0] for r in rows)) != len(rows):
+            s.err(0, "a helper is defined twice")
+        self.dat("helpers_imports", "list (string * list string)", self.rows_list(imps))
+        self.dat("helpers_funcs", "list (string * (list string * string))",
+                 "[" + ";\n   ".join(f"({coq_str(a)}, ({str_list(b)}, {coq_str(c)}))" for a, b, c in rows) + "]")
+
+    def module_level(self, s, key, classes, only_init=()):
+        """module level of an API module: imports and the known classes; class level: methods (and _ndim)"""
+        rows, found = [], []
+        for i, n in enumerate(s.tree.body):
+            if isinstance(n, (ast.Import, ast.ImportFrom)):
+                rows.append(self.import_row(s, n, False))
+                continue
+            a = self.all_list(s, n)
+            if a is not None:
+                rows.append(("__all__", a))
+                continue
+            if i == 0 and isinstance(n, ast.Expr) and isinstance(n.value, ast.Constant) and isinstance(n.value.value, str):
+                continue
+            if isinstance(n, ast.ClassDef):
+                if n.decorator_list:
+                    s.err(n, f"class {n.name} is decorated")
+                found.append(n.name)
+                for j, m in enumerate(n.body):
+                    if isinstance(m, ast.FunctionDef):
+                        continue
+                    if j == 0 and isinstance(m, ast.Expr) and isinstance(m.value, ast.Constant) and isinstance(m.value.value, str):
+                        continue
+                    if isinstance(m, ast.Assign) and len(m.targets) == 1 and is_name(m.targets[0], "_ndim") \
+                            and int_const(m.value) is not None:
+                        continue
+                    s.err(m, f"class {n.name}: unexpected class-level statement `{U(m).splitlines()[0]}`")
+                if n.name in only_init:
+                    members = [m.name for m in n.body if isinstance(m, ast.FunctionDef)]
+                    if members != ["__init__"]:
+                        s.err(n, f"{n.name}: unexpected set of members {members}")
+                continue
+            s.err(n, f"unexpected module-level statement `{U(n).splitlines()[0]}` ({type(n).__name__})")
+        if found != classes:
+            s.err(0, f"classes {found} where {classes} were expected")
+        self.dat(f"mod_{key}_imports", "list (string * list string)", self.rows_list(rows))
+        self.dat(f"mod_{key}_classes", "list string", str_list(found))
+
+    def surface(self):
+        self.file_closure()
+        self.init_surface("__init__.py", "init")
+        self.init_surface("_fteik/__init__.py", "fteik")
+        self.init_surface("_interp/__init__.py", "interp")
+        self.about_surface()
+        self.helpers_surface()
+        self.module_level(self.base, "base", ["BaseGrid", "BaseGrid2D", "BaseGrid3D", "BaseTraveltime"])
+        self.module_level(self.grid, "grid", ["Grid2D", "Grid3D", "TraveltimeGrid2D", "TraveltimeGrid3D"],
+                          only_init=("Grid2D", "Grid3D"))
+        self.module_level(self.solver, "solver", ["Eikonal2D", "Eikonal3D"])
+
     # ---------------------------------------------------------------- all
     def run(self):
+        self.surface()
         self.base_grid()
         self.base_other()
         for nd in (2, 3):
